@@ -49,6 +49,13 @@ def bad_leaf_values(schema, name):
     return [123, "w:notinternal"] if codec == "tagged" else ["x", 1.5]
 
 
+def null_producing_values(schema, name):
+    """non-null resolver values that the (harness) scalar serialises to null"""
+    if name in schema["types"] and schema["types"][name]["kind"] == "SCALAR":
+        return ["i:$null"] if schema["types"][name].get("codec", "tagged") == "tagged" else [424242]
+    return []
+
+
 def value_faults(schema, t, depth=0):
     """[(kind label, Fault)] faults applicable to a value position of type t (parsed)"""
     out = []
@@ -63,6 +70,8 @@ def value_faults(schema, t, depth=0):
     if kind_of(schema, name) in ("SCALAR", "ENUM"):
         for b in bad_leaf_values(schema, name):
             out.append(("unserialisable_leaf", Fault("value", b)))
+        for b in null_producing_values(schema, name):
+            out.append(("coerced_to_null", Fault("value", b)))
     return out
 
 
@@ -102,6 +111,10 @@ def fault_sites(schema, ex):
         if nonobj:
             sites.append(("type:non_object_runtime_type", key, Fault("type", nonobj[0]), False))
 
+    # a nullable variable carrying an explicit null (fails the fields whose non-null argument it feeds)
+    for vd in getattr(ex, "op", {}).get("vars") or ():
+        if not vd["type"].endswith("!") and named(ty(vd["type"])) != "Boolean":  # Boolean variables may drive @skip/@include, whose failure mode the statement does not cover
+            sites.append(("var_null", ("$var", vd["name"]), Fault("var_null"), False))
     for path, (tstr, res, coord) in ex.results.items():
         t = ty(tstr)
         sites.append(("raise", path, Fault("raise"), False))
@@ -115,6 +128,14 @@ def fault_sites(schema, ex):
         elif tn[0] == "N" and kind_of(schema, tn[1]) in ("INTERFACE", "UNION") and isinstance(res, dict):
             abstract_sites(tn[1], res)
     return sites
+
+
+def pick_fault(c, sites):
+    """one fault site; when a long list is present, often one of its far items"""
+    far = [x for x in sites if x[1] and isinstance(x[1][-1], int) and x[1][-1] >= 128]
+    if far and c.maybe(50):
+        return far[c.int(0, len(far) - 1)]
+    return sites[c.int(0, len(sites) - 1)]
 
 
 def fault_to_json(f):
@@ -135,7 +156,17 @@ def key_to_json(k):
 def install(tree, faults):
     tree.faults = {}
     for key, f in faults:
-        tree.faults[tuple(key)] = f
+        if f.kind != "var_null":
+            tree.faults[tuple(key)] = f
+
+
+def effective_variables(spec):
+    """the request's variables with the `$var` faults applied"""
+    out = dict(spec.get("variables") or {})
+    for key, f in spec.get("faults") or ():
+        if key and key[0] == "$var":
+            out[key[1]] = None
+    return out
 
 
 def visible(data, target):
@@ -217,14 +248,15 @@ def check_faulted(spec, h, printed=None):
     ex = Executor(schema, spec["doc"], RefProvider(tree))
     op = ex.get_operation(spec["op"])
     root = schema["roots"][op["type"]]
-    expected = ex.execute(spec["op"], spec["variables"], root_value=tree.root(root))
+    variables = effective_variables(spec)
+    expected = ex.execute(spec["op"], variables, root_value=tree.root(root))
     ref_errors = ex.final_errors()
     if tree.undrawn:
         raise core.HarnessError("reference asked for undrawn data under faults")
     # engine
     etree = Tree(schema, None, copy.deepcopy(spec["tree"]))
     install(etree, faults)
-    printed, resp = run_async(c01.run_request(h, spec, etree, root))
+    printed, resp = run_async(c01.run_request(h, dict(spec, variables=variables), etree, root))
     ctx = "\nfaults=%r\nquery:\n%s\nvariables=%r op=%r\nresponse=%s\nreference data=%s\nreference errors=%r" % (
         [(k, f.kind, f.payload) for k, f in faults], printed.text, spec["variables"], spec["op"], str(resp)[:1500], c01.ordered(expected), [(e["path"], e["kind"], e["target"]) for e in ref_errors])
     compare_response(spec, printed, resp, expected, ref_errors, ex, ctx)
